@@ -20,6 +20,10 @@ CLAIMED = {
     text="MetricReceiver.metricReceived is verified from source on every path: a datapoint reaches events.metricReceived iff it is not blacklisted, not rejected by a non-empty whitelist and its value is not NaN; exactly -1 is replaced by the clock, MIN_TIMESTAMP_RESOLUTION rounds down to a multiple, name and value are passed unchanged; RegexList membership is verified with a loop invariant; a syntactic obligation shows all three listeners dispatch only through metricReceived.",
     note="re.search is an uninterpreted predicate (which patterns match is an input, not modelled); timestamps finite here (non-finite ones are C11); floats as tagged reals (A-REAL); RegexList.read_list (file parsing) not under contract; A-ENGINE, A-SMT",
     tech=TECH),
+  'C13': dict(
+    text="Both definitions of SafeUnpickler.find_class are verified from source for every (module, name): a normal return implies membership in an allow-list pinned in the contract, nothing is imported or looked up off the list, everything else raises UnpicklingError; loads() is shown to run load() on the restricted subclass; get_unpickler is secure unless the flag is set; call sites and the default setting are syntactic obligations. The step to 'no byte string reaches a global' is the assumed contract A-PICKLE on CPython, cross-checked by a bounded opcode-route sweep.",
+    note="A-PICKLE (CPython's Unpickler routes every global through find_class; bounded sweep of opcode routes x loaded-module attributes, labelled bounded, not counted as proved); strings as opaque atoms with exact literal equality; A-ENGINE, A-SMT",
+    tech=TECH + "; pinned allow-list postcondition; bounded stand-in only for the dependency contract A-PICKLE"),
   'C20': dict(
     text="All four TokenBucket methods are verified from source against a potential-function invariant over reals for every state, cost, clock sequence and window start; the window bound rate*w + 2*burst is a lemma over that invariant; the blocking wait bound and the new-burst clause are postconditions.",
     note="floats as reals (A-REAL), monotone clock / sleep lasts at least d (A-CLOCK), single user thread per bucket, capacity > 0, rate > 0, cost >= 0; A-ENGINE, A-SMT",
